@@ -590,6 +590,36 @@ func c15Aliasing(c *core.Ctx, pkg string) {
 			if id, ok := core.Callee(&x.Call); ok && (id.Name == "Clone" || id.Name == "Clip") {
 				return true
 			}
+		case *ssa.UnOp:
+			// a package-level name that is only ever assigned slice literals (in the package
+			// initialiser): a literal has no spare capacity, every append to it reallocates
+			if g, isG := x.X.(*ssa.Global); isG && x.Op == token.MUL {
+				lit, n := true, 0
+				if g.Pkg != nil {
+					for _, mem := range g.Pkg.Members {
+						fn, isFn := mem.(*ssa.Function)
+						if !isFn {
+							continue
+						}
+						for _, f2 := range core.WithClosures(fn) {
+							core.Instrs(f2, func(in ssa.Instruction) {
+								if st, isSt := in.(*ssa.Store); isSt && st.Addr == ssa.Value(g) {
+									n++
+									sl, isSl := core.Strip(st.Val).(*ssa.Slice)
+									if !isSl {
+										lit = false
+										return
+									}
+									if _, isAl := core.Strip(sl.X).(*ssa.Alloc); !isAl {
+										lit = false
+									}
+								}
+							})
+						}
+					}
+				}
+				return lit && n > 0
+			}
 		}
 		return false
 	}
@@ -626,6 +656,12 @@ func c15Aliasing(c *core.Ctx, pkg string) {
 				for _, u := range core.Refs(a) {
 					if u != ssa.Instruction(b2) && core.ReachableFrom(core.After(b2), u) {
 						bad = fmt.Sprintf("the name built at %s is still used at %s after %s appended to the same base slice", c.Pos(a), c.Pos(u), c.Pos(b2))
+					}
+					// kept in a field: it is in use for as long as the object lives
+					if st, isSt := u.(*ssa.Store); isSt && st.Val == ssa.Value(a) {
+						if _, isFA := st.Addr.(*ssa.FieldAddr); isFA {
+							bad = fmt.Sprintf("the name built at %s is kept in a field, and %s appends to the same base slice afterwards: with spare capacity in the base both names end in the component appended last", c.Pos(a), c.Pos(b2))
+						}
 					}
 				}
 			}
